@@ -24,6 +24,11 @@ type exprCase struct {
 	C  *Operand `json:"c,omitempty"`
 	Ev bool     `json:"ev,omitempty"`
 
+	// optional second operator applied to the result: ((A op B) op2 D) — feeds the Go number kinds otto's
+	// operators produce (int32, uint32, float64, bool) into the next conversion
+	Op2 string   `json:"op2,omitempty"`
+	D   *Operand `json:"d,omitempty"`
+
 	pre *obs // observation computed in a batch (not part of the case)
 }
 
@@ -32,33 +37,43 @@ type exprCase struct {
 func modelExpr(c exprCase) (m05.Value, *m05.Throw, *m05.Ctx) {
 	ctx := &m05.Ctx{}
 	env := &modelEnv{}
+	v, t := modelFirst(c, ctx, env)
+	if t != nil || c.Op2 == "" {
+		return v, t, ctx
+	}
+	d := env.model(*c.D, "D")
+	evalLog(ctx, *c.D, "D", c.Ev)
+	v, t = ctx.Binary(c.Op2, v, d)
+	return v, t, ctx
+}
+
+func modelFirst(c exprCase, ctx *m05.Ctx, env *modelEnv) (m05.Value, *m05.Throw) {
 	a := env.model(c.A, "A")
 	evalLog(ctx, c.A, "A", c.Ev)
 	switch c.Op {
 	case "&&", "||": // 11.11: the right operand is evaluated only when the left does not decide
 		if m05.ToBoolean(a) == (c.Op == "||") {
-			return a, nil, ctx
+			return a, nil
 		}
 		b := env.model(c.B, "B")
 		evalLog(ctx, c.B, "B", c.Ev)
-		return b, nil, ctx
+		return b, nil
 	case "?:": // 11.12
 		if m05.ToBoolean(a) {
 			b := env.model(c.B, "B")
 			evalLog(ctx, c.B, "B", c.Ev)
-			return b, nil, ctx
+			return b, nil
 		}
 		cc := env.model(*c.C, "C")
 		evalLog(ctx, *c.C, "C", c.Ev)
-		return cc, nil, ctx
+		return cc, nil
 	}
 	b := env.model(c.B, "B")
 	evalLog(ctx, c.B, "B", c.Ev)
 	if c.Op == "+" && c.B.Ref == "getter" && (c.A.K == "obj") {
 		ctx.Hazards = append(ctx.Hazards, hazPlusOrder)
 	}
-	v, t := ctx.Binary(c.Op, a, b)
-	return v, t, ctx
+	return ctx.Binary(c.Op, a, b)
 }
 
 func (c exprCase) script(idx int) script {
@@ -70,6 +85,9 @@ func (c exprCase) script(idx int) script {
 		s.expr = fmt.Sprintf("(%s ? %s : %s)", ea, eb, ec)
 	} else {
 		s.expr = fmt.Sprintf("(%s %s %s)", ea, c.Op, eb)
+	}
+	if c.Op2 != "" {
+		s.expr = fmt.Sprintf("(%s %s %s)", s.expr, c.Op2, s.r.expr(*c.D, "D", idx, c.Ev))
 	}
 	return s
 }
@@ -92,6 +110,14 @@ func describeOperand(o Operand) string {
 			s += "[via getter]"
 		}
 		return s
+	case "wrap":
+		return "new " + map[string]string{"bool": "Boolean", "num": "Number", "str": "String"}[o.Inner.K] + "(" + o.Inner.literal() + ")"
+	case "arr":
+		parts := make([]string, len(o.Elems))
+		for i, el := range o.Elems {
+			parts[i] = el.literal()
+		}
+		return "[" + strings.Join(parts, ",") + "]"
 	case "alias":
 		return "<same object as A>"
 	case "scn":
@@ -113,6 +139,9 @@ func (c exprCase) String() string {
 	if c.Op == "?:" {
 		return fmt.Sprintf("%s ? %s : %s", describeOperand(c.A), describeOperand(c.B), describeOperand(*c.C))
 	}
+	if c.Op2 != "" {
+		return fmt.Sprintf("(%s %s %s) %s %s", describeOperand(c.A), c.Op, describeOperand(c.B), c.Op2, describeOperand(*c.D))
+	}
 	return fmt.Sprintf("%s %s %s", describeOperand(c.A), c.Op, describeOperand(c.B))
 }
 
@@ -124,6 +153,9 @@ func checkExpr(c exprCase) harness.Outcome {
 	}
 	if c.B.Via != "" {
 		o.Classes = append(o.Classes, "via:"+c.B.Via)
+	}
+	if c.Op2 != "" {
+		o.Classes = append(o.Classes, "chained", "op2:"+c.Op2)
 	}
 	want, thr, ctx := modelExpr(c)
 	switch {
@@ -268,15 +300,23 @@ func TestPrimitiveProduct(t *testing.T) {
 
 // ---- facet: generated pairs of primitives through every injection channel ---------------------------
 
+var chainOps = []string{"+", "-", "*", "/", "%", "<<", ">>", ">>>", "&", "|", "^", "==", "!=", "===", "!==", "<", ">", "<=", ">="}
+
 var allBinary = append(append([]string{}, m05.BinaryOps...), "&&", "||")
 
 var binGen = harness.Register(&harness.Facet[exprCase]{
 	Name:     "binary-generated",
-	Rule:     "rapid: operator uniform over the 23 binary operators; each operand a primitive: double (boundary pool, random bit patterns, integer corners around 2^7…2^64), numeric/near-miss/other string (pools or random over four alphabets), boolean, null, undefined; injected as literal (exponent form, plain decimal text, hex), or through Otto.Set as float64/float32/string/bool and every Go integer width that holds the value exactly; one script per case; non-trivial = an operand is not a small integer literal or plain ASCII word; distinct by (operator, a, b, channels)",
+	Rule:     "rapid: operator uniform over the 23 binary operators (a quarter of the cases apply a second operator to the result, `(a op b) op2 d`, so that the Go number kinds otto's operators produce feed the next conversion); each operand a primitive: double (boundary pool, random bit patterns, integer corners around 2^7…2^64), numeric/near-miss/other string (pools or random over four alphabets), boolean, null, undefined; injected as literal (exponent form, plain decimal text, hex), or through Otto.Set as float64/float32/string/bool and every Go integer width that holds the value exactly; one script per case; non-trivial = an operand is not a small integer literal or plain ASCII word; distinct by (operator, a, b, channels)",
 	Quick:    40000,
 	Thorough: 400000,
 	Gen: func(t *rapid.T) exprCase {
-		return exprCase{Op: rapid.SampledFrom(allBinary).Draw(t, "op"), A: genPrimitive(t), B: genPrimitive(t)}
+		c := exprCase{Op: rapid.SampledFrom(allBinary).Draw(t, "op"), A: genPrimitive(t), B: genPrimitive(t)}
+		if c.Op != "in" && c.Op != "instanceof" && rapid.IntRange(0, 3).Draw(t, "chain") == 3 {
+			c.Op2 = rapid.SampledFrom(chainOps).Draw(t, "op2")
+			d := genPrimitive(t)
+			c.D = &d
+		}
+		return c
 	},
 	Check: checkExpr,
 })
@@ -285,9 +325,12 @@ func TestBinaryGenerated(t *testing.T) { binGen.Run(t) }
 
 // ---- facet: operators on O objects, with evaluation and conversion order ---------------------------
 
-var sceneryRHS = []string{"F", "G", "Hbad", "plain", "child", "bare", "arr", "strobj", "f1", "re"}
+var sceneryRHS = []string{"F", "G", "Hbad", "plain", "child", "bare", "arr", "strobj", "f1", "re", "bound"}
 
 func genObjOrPrim(t *rapid.T, label string) Operand {
+	if rapid.IntRange(0, 5).Draw(t, label+"-builtin") == 5 {
+		return genBuiltinObject(t)
+	}
 	if rapid.IntRange(0, 2).Draw(t, label) == 2 {
 		p := genPrimitive(t)
 		if rapid.IntRange(0, 5).Draw(t, "primgetter") == 5 {
@@ -483,10 +526,12 @@ var convFacet = harness.Register(&harness.Facet[convCase]{
 		switch k := rapid.IntRange(0, 9).Draw(t, "opkind"); {
 		case k < 6:
 			c.A = genPrimitive(t)
-		case k < 9 || (c.Form != "typeof x" && c.Form != "!x" && c.Form != "!!x" && c.Form != "Boolean(x)"):
+		case k < 8:
 			c.A = genObject(t)
+		case k < 9 || (c.Form != "typeof x" && c.Form != "!x" && c.Form != "!!x" && c.Form != "Boolean(x)"):
+			c.A = genBuiltinObject(t)
 		default:
-			c.A = Operand{K: "scn", Name: rapid.SampledFrom([]string{"F", "G", "Hbad", "plain", "child", "bare", "arr", "strobj", "f1", "g1", "re", "hostfn", "mathsin", "math"}).Draw(t, "scn")}
+			c.A = Operand{K: "scn", Name: rapid.SampledFrom([]string{"F", "G", "Hbad", "plain", "child", "bare", "arr", "strobj", "f1", "g1", "re", "hostfn", "mathsin", "math", "bound"}).Draw(t, "scn")}
 			if c.Form == "typeof x" && rapid.IntRange(0, 4).Draw(t, "undecl") == 0 {
 				c.A = Operand{K: "undecl"}
 			}
@@ -528,7 +573,9 @@ var accFacet = harness.Register(&harness.Facet[accCase]{
 	Thorough: 40000,
 	Gen: func(t *rapid.T) accCase {
 		c := accCase{Acc: rapid.SampledFrom([]string{"ToFloat", "ToInteger", "ToString", "ToBoolean"}).Draw(t, "acc")}
-		if rapid.IntRange(0, 2).Draw(t, "obj") == 0 {
+		if k := rapid.IntRange(0, 5).Draw(t, "obj"); k == 5 {
+			c.A = genBuiltinObject(t)
+		} else if k >= 3 {
 			c.A = genObject(t)
 			c.A.Ref = ""
 		} else {
@@ -555,6 +602,9 @@ var accFacet = harness.Register(&harness.Facet[accCase]{
 			var n float64
 			n, thr = ctx.ToInteger(a)
 			want = m05.Num(n) // compared after saturation below
+			if a.K == m05.Number && a.Held != "" && a.Held != exactDigits(a.N) {
+				ctx.Hazards = append(ctx.Hazards, m05.HazWideText) // the un-rounded int64 of the literal comes back
+			}
 		case "ToString":
 			var s []uint16
 			s, thr = ctx.ToString(a)
@@ -658,10 +708,12 @@ func TestTypeofInInstanceofTable(t *testing.T) {
 	}
 	keys = append(keys, Operand{K: "undef"}, Operand{K: "null"}, Operand{K: "bool", B: true}, Operand{K: "bool", B: false})
 	objs := []string{"F", "G", "Fproto", "Gproto", "f1", "g1", "Hbad", "plain", "child", "bare", "arr", "strobj", "re"}
+	inRHS := objs
+	objs = append(append([]string{}, objs...), "bound") // a bound function has no "prototype" property by 15.3.4.5; that is C14's matter, so it is no right operand of `in` here
 	prims := []Operand{{K: "undef"}, {K: "null"}, {K: "bool", B: true}, numOp(1, ""), strOpA("a"), strOpA("")}
 	var cases []exprCase
 	for _, k := range keys {
-		for _, n := range objs {
+		for _, n := range inRHS {
 			cases = append(cases, exprCase{Op: "in", A: k, B: Operand{K: "scn", Name: n}})
 		}
 		for _, p := range prims {
@@ -720,6 +772,9 @@ func genTree(t *rapid.T, depth int, next *int) *node {
 			o = genPrimitive(t)
 		case 2:
 			o = Operand{K: "scn", Name: rapid.SampledFrom([]string{"F", "plain", "arr", "bare", "strobj"}).Draw(t, "scn")}
+			if rapid.Bool().Draw(t, "builtin") {
+				o = genBuiltinObject(t)
+			}
 		default:
 			o = genObject(t)
 			o.Ref = ""
